@@ -27,7 +27,9 @@ import (
 	"github.com/ontio/ontology/core/store/leveldbstore"
 	"github.com/ontio/ontology/core/store/overlaydb"
 	"github.com/ontio/ontology/core/types"
+	"github.com/ontio/ontology/account"
 	"github.com/ontio/ontology/smartcontract"
+	"github.com/ontio/ontology/smartcontract/service/native"
 	"github.com/ontio/ontology/smartcontract/service/native/auth"
 	"github.com/ontio/ontology/smartcontract/service/native/global_params"
 	gov "github.com/ontio/ontology/smartcontract/service/native/governance"
@@ -133,6 +135,10 @@ type setup struct {
 	Time0   uint32         `json:"time0"`
 }
 
+const adminOntID = "did:ont:AdjfcJgwru2FD8kotCPvLDXYzRjqFjc9Tb"
+
+var callerOK, callerBad string // ONT IDs used as `Caller` of registerCandidate: with / without the role
+
 func newWorld(c *hx.Ctx) *world {
 	initPeerKeys()
 	ont.InitOnt()
@@ -140,6 +146,20 @@ func newWorld(c *hx.Ctx) *world {
 	global_params.InitGlobalParams()
 	auth.Init()
 	gov.InitGovernance()
+	// The ONT ID contract is outside the model: signature checks of ONT IDs always succeed, so
+	// that the auth contract's verifyToken answers from the role tables alone.
+	native.Contracts[nutils.OntIDContractAddress] = func(n *native.NativeService) {
+		n.Register("verifySignature", func(*native.NativeService) ([]byte, error) { return nutils.BYTE_TRUE, nil })
+	}
+	if callerOK == "" {
+		var err error
+		if callerOK, err = account.CreateID([]byte("c11-verif-caller-with-role-nonce")); err != nil {
+			panic(err)
+		}
+		if callerBad, err = account.CreateID([]byte("c11-verif-caller-without-a-role!")); err != nil {
+			panic(err)
+		}
+	}
 	return &world{c: c, overlay: overlaydb.NewOverlayDB(leveldbstore.NewMemLevelDBStore())}
 }
 
@@ -215,7 +235,7 @@ func (w *world) genesis(st *setup) error {
 	// governance
 	cfg := &config.VBFTConfig{N: 7, C: 2, K: 7, L: 112, BlockMsgDelay: 10000, HashMsgDelay: 10000,
 		PeerHandshakeTimeout: 10, MaxBlockChangeView: 100000, MinInitStake: 10000,
-		AdminOntID: "did:ont:AdjfcJgwru2FD8kotCPvLDXYzRjqFjc9Tb", VrfValue: vrfStr, VrfProof: vrfStr}
+		AdminOntID: adminOntID, VrfValue: vrfStr, VrfProof: vrfStr}
 	var sum uint64
 	for i, p := range st.Peers {
 		oa := addrOf(p.Owner)
@@ -231,6 +251,17 @@ func (w *world) genesis(st *setup) error {
 	gs.WriteVarBytes(cs.Bytes())
 	if _, err, _ := w.invoke(&call{govC, gov.INIT_CONFIG, gs.Bytes(), nil, h, t}); err != nil {
 		return fmt.Errorf("gov init: %v", err)
+	}
+	// role "candidate" may call registerCandidate; callerOK holds it
+	fr := &auth.FuncsToRoleParam{ContractAddr: govC, AdminOntID: []byte(adminOntID), Role: []byte("candidate"),
+		FuncNames: []string{gov.REGISTER_CANDIDATE}, KeyNo: 1}
+	if _, err, _ := w.invoke(&call{nutils.AuthContractAddress, "assignFuncsToRole", common.SerializeToBytes(fr), nil, h, t}); err != nil {
+		return fmt.Errorf("assignFuncsToRole: %v", err)
+	}
+	or := &auth.OntIDsToRoleParam{ContractAddr: govC, AdminOntID: []byte(adminOntID), Role: []byte("candidate"),
+		Persons: [][]byte{[]byte(callerOK)}, KeyNo: 1}
+	if _, err, _ := w.invoke(&call{nutils.AuthContractAddress, "assignOntIDsToRole", common.SerializeToBytes(or), nil, h, t}); err != nil {
+		return fmt.Errorf("assignOntIDsToRole: %v", err)
 	}
 	// distribution by ordinary ONT transfers signed by the bank
 	if st.Funded && sum > 0 {
@@ -253,7 +284,8 @@ func (w *world) genesis(st *setup) error {
 	// ONG for the candidate fee and the fee split (ONG is outside the model: written directly)
 	cache := storage.NewCacheDB(w.overlay)
 	for id := 0; id < nAddr; id++ {
-		cache.Put(ont.GenBalanceKey(ongC, addrOf(id)), balanceBytes(new(big.Int).SetUint64(1_000_000_000_000_000)))
+		raw, _ := new(big.Int).SetString("1000000000000000000000000", 10) // 10^6 ONG in 10^-18 units
+		cache.Put(ont.GenBalanceKey(ongC, addrOf(id)), balanceBytes(raw))
 	}
 	cache.Commit()
 	return nil
@@ -511,6 +543,8 @@ func classify(err error, panicked bool) string {
 		return "EBucket"
 	case has("initPos can not be negative") || has("initPos must more than"):
 		return "EReduce"
+	case has("get value from promisePosBytes"):
+		return "EPromise"
 	}
 	return "EOther"
 }
